@@ -240,6 +240,10 @@ example :
     let v : View Unit Nat := .node negV [] (.cons (.node addV [] (.cons (.node mulV [] (.cons (.leaf 0) (.cons (.leaf 1) .nil))) (.cons (.leaf 2) .nil))) .nil)
     v.leftLinear = true ∧ v.denote envE = 989 ∧ valuesOf (applyComp ⟨v.compile, []⟩ (v.operandsOf.map envE)) = [989]
       ∧ v.operandsOf = [0, 1, 2] := by decide
+-- leftLinear_wellFormed on that tree's shape: a left-linear depth-2 tree is well formed
+example :
+    let v : View Unit Nat := .node addV [] (.cons (.node mulV [] (.cons (.leaf 0) (.cons (.leaf 1) .nil))) (.cons (.leaf 2) .nil))
+    v.leftLinear = true ∧ v.wellFormed = true := by decide
 -- currying a ternary functor in the splits 1+2 and 2+1
 example :
     let f : Fn Unit Nat := .ofFunctor ⟨3, fun _ xs => [xs.foldl (fun a b => 10 * a + b) 0]⟩
